@@ -509,6 +509,7 @@ def check(ctx: Ctx) -> None:
 
 R, B, U, PF = "pipefunc/map/_run.py", "pipefunc/_pipeline/_base.py", "pipefunc/_utils.py", "pipefunc/_pipefunc.py"
 MUTANTS = [
+    Mutant("snapshot-stdlib-pickle", "pipefunc/_pipefunc.py", "            cloudpickle.dump(self, f)\n", "            import pickle\n\n            pickle.dump(self, f)\n", ("C13.4-snapshot",), why="round-6 seed C13/16"),
     Mutant("local-ip-catches-too-little", "pipefunc/_utils.py", "    except Exception:  # noqa: BLE001  # pragma: no cover\n        return \"unknown\"\n", "    except (socket.gaierror, socket.timeout):  # pragma: no cover\n        return \"unknown\"\n", ("C13.4-snapshot",), why="round-4 seed C13/12"),
     Mutant("success-clears-snapshot", PF, "            try:\n                result = self.func(*args, **kwargs)\n", "            self.error_snapshot = None\n            try:\n                result = self.func(*args, **kwargs)\n", ("C13.4-snapshot",), why="round-2 seed C13/5"),
     Mutant("map-call-bare", R, "    def compute_fn() -> Any:\n        try:\n            return func(**selected)\n        except Exception as e:\n            handle_error(e, func, selected)\n            # handle_error raises but mypy doesn't know that\n            raise  # pragma: no cover\n",
